@@ -597,3 +597,22 @@ def c04_cost_def(ctx, shape, l1, weighted):
     vol = float(np.prod(h))
     ctx.ensure("l1_dissipation(flux) == sum over cells of cell volume * transport_density(flux)", eq(cost, vol * np.sum(td)))
     ctx.ensure("flattened transport density is the Fortran ravel of the cell array", eq(w.transport_density(q, flatten=True), np.ravel(td, "F")))
+
+
+@ob("C04.zero_tolerance", kind="B", cases=product_cases(method=("newton", "bregman"), which=("tol_residual", "tol_increment", "tol_distance", "all")), funcs=FUNCS[:2], samples=(1, 1),
+    cite="A run is reported converged only if its stopping criteria were met",
+    note="bounded: a tolerance given explicitly as 0 is a legal input whose criterion `error < 0` can never be met - the documented way to force exactly num_iter iterations; the run "
+         "performs all of them and is not flagged converged (after seed C04_i: `options.get(key) or default` treats an explicit 0 as 'not given')")
+def c04_zero_tolerance(ctx, method, which):
+    rng = np.random.default_rng(11)
+    shape = (4, 3)
+    grid, h = grid_of(shape)
+    m1, m2 = images(shape, h, rng)
+    tol = {k: (0.0 if which in (k, "all") else 1e30) for k in ("tol_residual", "tol_increment", "tol_distance")}
+    num_iter = 6
+    w = solver(method, grid, base_options(num_iter=num_iter, **tol))
+    with warnings.catch_warnings():
+        warnings.simplefilter("ignore")
+        dist, info = w(m1, m2)
+    ctx.ensure(f"{which} = 0: never reported converged", info["converged"] is False)
+    ctx.ensure(f"{which} = 0: all {num_iter} iterations are performed", len(info["convergence_history"]["distance"]) == num_iter and info["number_iterations"] == num_iter - 1)
